@@ -10,7 +10,10 @@ use std::sync::atomic::{AtomicBool, AtomicU64, Ordering};
 use std::sync::Mutex;
 use std::time::Instant;
 
-pub const VERIF_DIR: &str = "/verif";
+/// Root of the verification tree (AGV_ROOT is set by bin/check; default /verif).
+pub fn verif_dir() -> String {
+    std::env::var("AGV_ROOT").unwrap_or_else(|_| "/verif".to_string())
+}
 
 #[derive(Clone, Copy, PartialEq, Eq, Debug)]
 pub enum Tier {
@@ -634,8 +637,8 @@ impl Report {
             "violations": real.len(),
         });
         if self.one.is_none() {
-            let path = std::env::var("AGV_EVIDENCE_OUT").unwrap_or_else(|_| format!("{VERIF_DIR}/evidence/{}.json", self.prop));
-            let _ = std::fs::create_dir_all(format!("{VERIF_DIR}/evidence"));
+            let path = std::env::var("AGV_EVIDENCE_OUT").unwrap_or_else(|_| format!("{}/evidence/{}.json", verif_dir(), self.prop));
+            let _ = std::fs::create_dir_all(format!("{}/evidence", verif_dir()));
             std::fs::write(&path, serde_json::to_string_pretty(&ev).unwrap() + "\n").expect("write evidence");
         }
         for (k, (w, n)) in &known_hit {
@@ -659,16 +662,16 @@ impl Report {
         for v in &real {
             by_key.entry(v.key.clone()).or_default().push(v);
         }
-        let _ = std::fs::create_dir_all(format!("{VERIF_DIR}/replays"));
+        let _ = std::fs::create_dir_all(format!("{}/replays", verif_dir()));
         for (key, vs) in by_key {
             let v = vs.iter().min_by_key(|v| (v.ord, v.idx)).unwrap();
             let h = hash64(&(key.as_str(), v.ord, v.idx));
-            let path = format!("{VERIF_DIR}/replays/{}-{:08x}.json", self.prop, h as u32);
+            let path = format!("{}/replays/{}-{:08x}.json", verif_dir(), self.prop, h as u32);
             let body = json!({
                 "property": self.prop, "tier": self.tier.name(), "seed": self.seed,
                 "key": key, "sub": v.sub, "ord": v.ord, "idx": v.idx,
                 "cases_with_this_key": vs.len(), "detail": v.detail,
-                "replay_cmd": format!("/verif/bin/check {} --replay {}", self.prop, path),
+                "replay_cmd": format!("{}/bin/check {} --replay {}", verif_dir(), self.prop, path),
             });
             std::fs::write(&path, serde_json::to_string_pretty(&body).unwrap() + "\n").expect("write replay");
             println!("VIOLATION property={} replay={}", self.prop, path);
@@ -685,7 +688,7 @@ pub struct KnownFinding {
 }
 
 pub fn load_known_findings(prop: &str) -> Vec<KnownFinding> {
-    let path = format!("{VERIF_DIR}/known_findings.json");
+    let path = format!("{}/known_findings.json", verif_dir());
     let Ok(s) = std::fs::read_to_string(path) else {
         return vec![];
     };
